@@ -45,6 +45,7 @@ type FuncSpec struct {
 	Pure     bool
 	Inline   bool
 	Lets     []*Clause // let name := expr (evaluated in post-state)
+	AtCalls  map[string][]*Clause // callee short name -> assertions checked in the caller's state at each call
 	File     string
 }
 
@@ -61,6 +62,8 @@ type SpecDB struct {
 	forceInline map[string]bool
 	all         []*FuncSpec
 	lemmas      []*Lemma
+	specFns     map[string]ufSig
+	axioms      []*Clause
 }
 
 type Lemma struct {
@@ -129,7 +132,7 @@ func parseProps(s string) map[string]bool {
 
 // LoadSpecs reads all zz_contracts_verif.go files of the loaded packages.
 func LoadSpecs(pkgs []*packages.Package) (*SpecDB, error) {
-	db := &SpecDB{byFunc: map[string]*FuncSpec{}, forceInline: map[string]bool{}}
+	db := &SpecDB{byFunc: map[string]*FuncSpec{}, forceInline: map[string]bool{}, specFns: map[string]ufSig{}}
 	for _, p := range pkgs {
 		for _, f := range p.GoFiles {
 			if filepath.Base(f) != "zz_contracts_verif.go" {
@@ -176,7 +179,7 @@ func (db *SpecDB) loadFile(pkgPath, file string) error {
 			continue
 		case strings.HasPrefix(body, "func "):
 			curLemma = nil
-			name := strings.TrimSpace(body[5:])
+			name := strings.Replace(strings.TrimSpace(body[5:]), ") ", ").", 1)
 			cur = &FuncSpec{Name: name, Pkg: pkgPath, Loops: map[string]*LoopSpec{}, NoPanic: map[string]bool{}, File: file}
 			key := pkgPath + "|" + name
 			if _, dup := db.byFunc[key]; dup {
@@ -194,6 +197,30 @@ func (db *SpecDB) loadFile(pkgPath, file string) error {
 				}
 			}
 			db.lemmas = append(db.lemmas, curLemma)
+		case strings.HasPrefix(body, "specfn "):
+			// specfn name(Sort, Sort): Sort
+			rest := strings.TrimSpace(body[7:])
+			i := strings.Index(rest, "(")
+			j := strings.LastIndex(rest, ")")
+			if i < 0 || j < i {
+				return fmt.Errorf("%s: bad specfn", where)
+			}
+			var as []string
+			for _, a := range strings.Split(rest[i+1:j], ",") {
+				if a = strings.TrimSpace(a); a != "" {
+					as = append(as, a)
+				}
+			}
+			res := strings.TrimSpace(strings.TrimPrefix(strings.TrimSpace(rest[j+1:]), ":"))
+			db.specFns[strings.TrimSpace(rest[:i])] = ufSig{Args: as, Res: res}
+		case strings.HasPrefix(body, "axiom "):
+			rest := strings.TrimSpace(body[6:])
+			i := strings.Index(rest, ":")
+			ex, err := ParseExpr(strings.TrimSpace(rest[i+1:]))
+			if err != nil {
+				return fmt.Errorf("%s: %v", where, err)
+			}
+			db.axioms = append(db.axioms, &Clause{Kind: "axiom", Name: strings.TrimSpace(rest[:i]), Src: rest, Expr: ex, Line: where})
 		case curLemma != nil && strings.HasPrefix(body, "smt "):
 			curLemma.Body += body[4:] + "\n"
 		case cur == nil:
@@ -248,6 +275,29 @@ func (db *SpecDB) loadFile(pkgPath, file string) error {
 				nm = fmt.Sprintf("inv%d", len(ls.Invariants)+1)
 			}
 			ls.Invariants = append(ls.Invariants, &Clause{Kind: "invariant", Name: nm, Props: parseProps(m[2]), Src: m[4], Expr: ex, Line: where})
+		case strings.HasPrefix(body, "at call "):
+			rest := strings.TrimSpace(body[8:])
+			i := strings.Index(rest, " assert")
+			if i < 0 {
+				return fmt.Errorf("%s: bad at-call clause", where)
+			}
+			callee := strings.Replace(strings.TrimSpace(rest[:i]), ") ", ").", 1)
+			m := clauseRe.FindStringSubmatch(strings.TrimSpace(rest[i+1:]))
+			if m == nil {
+				return fmt.Errorf("%s: bad at-call clause: %s", where, body)
+			}
+			ex, err := ParseExpr(m[4])
+			if err != nil {
+				return fmt.Errorf("%s: %v", where, err)
+			}
+			if cur.AtCalls == nil {
+				cur.AtCalls = map[string][]*Clause{}
+			}
+			nm := m[3]
+			if nm == "" {
+				nm = fmt.Sprintf("atcall#%d", len(cur.AtCalls[callee])+1)
+			}
+			cur.AtCalls[callee] = append(cur.AtCalls[callee], &Clause{Kind: "assert", Name: nm, Props: parseProps(m[2]), Src: m[4], Expr: ex, Line: where})
 		case strings.HasPrefix(body, "let "):
 			rest := strings.TrimSpace(body[4:])
 			i := strings.Index(rest, ":=")
@@ -364,7 +414,7 @@ func lexExpr(s string) ([]tok, error) {
 					goto next
 				}
 			}
-			if strings.ContainsRune("+-*/%<>!()[].,?:", rune(c)) {
+			if strings.ContainsRune("+-*/%<>!()[].,?:{}", rune(c)) {
 				ts = append(ts, tok{"op", string(c)})
 				i++
 			} else {
@@ -438,11 +488,30 @@ func (p *parser) parseImpl() (*Expr, error) {
 		if err := p.expect("::"); err != nil {
 			return nil, err
 		}
+		var trigs []*Expr
+		if p.isOp("{") {
+			p.next()
+			for {
+				tr, err := p.parseTern()
+				if err != nil {
+					return nil, err
+				}
+				trigs = append(trigs, tr)
+				if p.isOp(",") {
+					p.next()
+					continue
+				}
+				break
+			}
+			if err := p.expect("}"); err != nil {
+				return nil, err
+			}
+		}
 		b, err := p.parseImpl()
 		if err != nil {
 			return nil, err
 		}
-		q.Args = []*Expr{b}
+		q.Args = append([]*Expr{b}, trigs...)
 		return q, nil
 	}
 	l, err := p.parseTern()
